@@ -9,6 +9,7 @@ import (
 	"go/ast"
 	"go/token"
 	"go/types"
+	"os"
 	"sort"
 	"strings"
 
@@ -73,6 +74,7 @@ type Obligation struct {
 	Pos        token.Position
 	Clause     string
 	Cover      bool // reachability check: expected SAT
+	retryB     bool // stage B ran out of time (as opposed to: its instances were not enough)
 	Lemma      bool
 	ExtraAs    []*Term
 	PkgPath    string
@@ -891,6 +893,9 @@ func (e *FnExec) loopModifies(li *loopInfo) (cells map[int]bool, classes map[str
 				cm := e.callModifies(x.Common())
 				if cm == nil {
 					all = true
+					if os.Getenv("GOVC_DEBUG_LOOP") != "" {
+						fmt.Fprintf(os.Stderr, "loop %d of %s: call without known frame: %s\n", li.ordinal, e.key, x.Common().String())
+					}
 				} else {
 					for c, s := range cm {
 						classes[c] = s
